@@ -2,7 +2,7 @@
 From Coq Require Import ZArith List Bool PrimFloat String.
 Import ListNotations.
 Require Import PyBase Solver SolverFacts SolverFacts2 SolverFacts3 SolverFacts4 SolverFacts5 SolverFacts6 SolverFacts7 SolverF SolverExamples SolverExamples2.
-Require Import SolveAll SolveAllF SolveAllFacts SolveAllFacts2 SolveAllExamples SolveAllExamples2.
+Require Import SolveAll SolveAllF SolveAllFacts SolveAllFacts2 SolveAllExamples SolveAllExamples2 SolveAllHistF SolveAllHistFacts.
 Require Fsic.Gen.Generated.
 Open Scope Z_scope.
 
@@ -409,6 +409,25 @@ Section C06multi.
   Proof. exact (api_status_invariant num sub absf ltb isfin zero ev before after L locate cs s). Qed.
 End C06multi.
 
+(* the histories the correspondence K_history runs against the implementation (SolveAllHistF.run_hist: solve_t / solve_period / solve
+   calls on one scripted instance, outcomes collected) have exactly the states of run_api, and therefore the invariant: after any such
+   history every status is one of the five SolutionStatus values — the initial one, '.', 'F', 'S' (only if some call had
+   errors='skip') or 'E' (only if some call had errors='raise') — and the series keep their length *)
+Theorem C06_run_hist_is_run_api sc d kind span n cs s :
+  fst (run_hist sc d kind span n cs s) =
+  run_api float PrimFloat.sub PrimFloat.abs PrimFloat.ltb fisfin fzero (s_ev n sc) (s_before n sc) (s_after n sc) Z
+          (f_locate kind span []) (map (to_api d span) cs) s.
+Proof. exact (run_hist_state sc d kind span n cs s). Qed.
+Theorem C06_history_status_invariant sc d kind span n cs s :
+  let s' := fst (run_hist sc d kind span n cs s) in
+  List.length (status s') = List.length (status s) /\ List.length (iters s') = List.length (iters s) /\
+  forall q x, nth_error (status s') q = Some x ->
+    In (st_char x) Generated.status_values /\
+    (nth_error (status s) q = Some x \/ x = Solved \/ x = Failed \/
+     (x = Skipped /\ exists c, In c cs /\ errors (hcall_opts c) = ESkip) \/
+     (x = ErrorSt /\ exists c, In c cs /\ errors (hcall_opts c) = ERaise)).
+Proof. exact (hist_status_invariant sc d kind span n cs s). Qed.
+
 (* the five statuses of the model are the SolutionStatus values of the working tree (regenerated constant) *)
 Theorem C06_status_alphabet_matches_source :
   map st_char [Unsolved; Solved; Failed; ErrorSt; Skipped] = Generated.status_values.
@@ -519,6 +538,8 @@ Print Assumptions C06_calls_status_invariant.
 Print Assumptions C06_catch_first_no_store.
 Print Assumptions C06_skip_moves_on.
 Print Assumptions C06_api_history_status_invariant.
+Print Assumptions C06_run_hist_is_run_api.
+Print Assumptions C06_history_status_invariant.
 Print Assumptions C06_status_alphabet_matches_source.
 Print Assumptions C06_status_always_in_alphabet.
 Print Assumptions C06_catch_first_warning_no_store.
